@@ -532,4 +532,96 @@ Proof.
     + lia.
     + lia.
 Qed.
+
+(* ---------- extending the data set: frame(f, i) with i at or beyond the count leaves unfilled frames in between ---------- *)
+Lemma filter_filled_repeat_empty : forall k, filter filled (repeat empty_frame k) = [].
+Proof. induction k as [|k IH]; [reflexivity|]. cbn [repeat filter]. exact IH. Qed.
+
+Theorem frame_extend_keeps_inv : forall f i s s' f0 ft a,
+  Inv s -> MT (groups s) ->
+  frames s = f0 :: ft -> fr_subs f0 <> [] ->
+  lk_int0 (groups s) nm_ANALOG nm_USED = Some a -> a <> 0 ->
+  announced s f ->
+  nlen (frames s) <= i -> i + 1 < 2147483648 ->
+  nlen (fr_pts f0) < 2147483648 -> a < 2147483648 -> a * h_byframe (hdr s) < two64 ->
+  api_frame f_key f_tosize f_div f_is_zero f (Some i) s = ROk tt s' ->
+  Inv s'.
+Proof.
+  intros f i s s' f0 ft a HI HM Ef Hsub Ha Ha0 [An1 [An2 An3]] Hi Sz1 Sz2 Sz3 Sz4 H.
+  pose proof HI as HI0.
+  unfold Inv, inv_b in HI. set (r := inv_report_of s) in HI.
+  apply andb_prop in HI. destruct HI as [HI I10]. apply andb_prop in HI. destruct HI as [HI I9]. apply andb_prop in HI. destruct HI as [HI I8].
+  apply andb_prop in HI. destruct HI as [HI I7]. apply andb_prop in HI. destruct HI as [HI I6]. apply andb_prop in HI. destruct HI as [HI I5].
+  apply andb_prop in HI. destruct HI as [HI I4]. apply andb_prop in HI. destruct HI as [HI I3]. apply andb_prop in HI. destruct HI as [I1 I2].
+  unfold r, inv_report_of in I1, I2, I3, I4, I5, I6, I7, I8, I9, I10.
+  cbn [r_points_hdr r_points_frames r_frames_hdr r_frames_stored r_subframes r_analogs_hdr r_analogs_meas r_analogs_frames r_label_counts r_label_order] in *.
+  rewrite Ha in *.
+  assert (F0 : filled f0 = true).
+  { unfold filled. destruct (fr_subs f0) as [|x t]; [contradiction|]. unfold nlen. cbn [length]. rewrite Bool.andb_false_r. reflexivity. }
+  destruct (lk_int0 (groups s) nm_POINT nm_USED) as [u|] eqn:Eu; [|discriminate].
+  assert (I2' := I2). assert (I5' := I5). assert (I8' := I8).
+  rewrite Ef in I2', I5', I8', I10. cbn [filter] in I2', I5', I8'. rewrite F0 in I2', I5', I8', I10. cbn [forallb] in I2', I5', I8'.
+  apply andb_prop in I2'. destruct I2' as [I2a _]. apply andb_prop in I5'. destruct I5' as [I5a _].
+  assert (Bf : h_byframe (hdr s) = nlen (fr_subs f0)) by lia.
+  assert (Bf1 : 1 <= h_byframe (hdr s)).
+  { rewrite Bf. destruct (fr_subs f0); [contradiction|]. unfold nlen. cbn [length]. lia. }
+  assert (Bf1b : (1 <=? h_byframe (hdr s)) = true) by lia.
+  rewrite Bf1b in I6, I7, I8, I8'. apply andb_prop in I8'. destruct I8' as [I8a _].
+  assert (Ua : u = nlen (fr_pts f0)) by lia.
+  assert (Na : nan_of f0 = a).
+  { unfold nan_of. destruct (fr_subs f0) as [|sf0 t]; [contradiction|]. cbn [forallb] in I8a. lia. }
+  apply andb_prop in I9. destruct I9 as [I9 I9h]. apply andb_prop in I9. destruct I9 as [I9 I9g]. apply andb_prop in I9. destruct I9 as [I9 I9f].
+  apply andb_prop in I9. destruct I9 as [I9 I9e]. apply andb_prop in I9. destruct I9 as [I9 I9d]. apply andb_prop in I9. destruct I9 as [I9 I9c].
+  apply andb_prop in I9. destruct I9 as [I9a I9b].
+  apply andb_prop in I10. destruct I10 as [I10a I10b].
+  assert (Pf : nlen (fr_pts f) = u).
+  { pose proof (lk_strs_count _ _ _ _ An1) as C. rewrite C in I9a. cbn [opt_eqb] in I9a. unfold nlen in *. rewrite map_length in I9a. lia. }
+  assert (Cf : forall sf, In sf (fr_subs f) -> nlen sf = a).
+  { intros sf Hin. pose proof (lk_strs_count _ _ _ _ (An3 sf Hin)) as C. rewrite C in I9d. cbn [opt_eqb] in I9d. unfold nlen in *. rewrite map_length in I9d. lia. }
+  assert (Lp0 : lk_strs (groups s) nm_POINT nm_LABELS = Some (map pt_name (fr_pts f0))).
+  { destruct (lk_strs (groups s) nm_POINT nm_LABELS) as [l|]; [|discriminate]. apply strs_eqb_eq in I10a. rewrite I10a. reflexivity. }
+  assert (Lc0 : forall sf0 t, fr_subs f0 = sf0 :: t -> lk_strs (groups s) nm_ANALOG nm_LABELS = Some (map ch_name sf0)).
+  { intros sf0 t E. rewrite E in I10b. destruct (lk_strs (groups s) nm_ANALOG nm_LABELS) as [l|]; [|discriminate]. apply strs_eqb_eq in I10b. rewrite I10b. reflexivity. }
+  set (k := N.to_nat (i - nlen (frames s))).
+  set (fs' := frames s ++ repeat empty_frame k ++ [f]).
+  assert (P : put empty_frame (frames s) f (Some i) = Ok fs').
+  { unfold put. assert (E1 : (i <? nlen (frames s)) = false) by lia. rewrite E1.
+    assert (E2 : (i =? size_max) = false) by (unfold size_max; lia). rewrite E2.
+    assert (E3 : (2305843009213693951 <? i) = false) by lia. rewrite E3. reflexivity. }
+  assert (FF : filter filled fs' = filter filled (frames s) ++ filter filled [f]).
+  { unfold fs'. rewrite !filter_app, filter_filled_repeat_empty. reflexivity. }
+  assert (Q2 : forallb (fun x => nlen (fr_pts x) =? u) (filter filled fs') = true).
+  { rewrite FF, forallb_app, I2. cbn [filter]. destruct (filled f); cbn [forallb andb]; [lia|reflexivity]. }
+  assert (Q5 : forallb (fun x => nlen (fr_subs x) =? h_byframe (hdr s)) (filter filled fs') = true).
+  { rewrite FF, forallb_app, I5. cbn [filter]. destruct (filled f); cbn [forallb andb]; [lia|reflexivity]. }
+  assert (Q8 : forallb (fun x => forallb (fun sf : subframe => nlen sf =? a) (fr_subs x)) (filter filled fs') = true).
+  { rewrite FF, forallb_app. apply andb_true_intro. split; [exact I8|]. cbn [filter]. destruct (filled f); cbn [forallb andb]; [|reflexivity]. rewrite andb_true_r.
+    apply forallb_forall. intros sf Hin. specialize (Cf sf Hin). lia. }
+  assert (Ln : nlen fs' < 2147483648).
+  { unfold fs', nlen in *. rewrite !app_length, repeat_length. cbn [length]. unfold k. lia. }
+  apply (frame_call_keeps_inv f (Some i) s s' fs' f0 (ft ++ repeat empty_frame k ++ [f]) u a HI0 HM P Eu Ha Ha0 Bf1); try assumption.
+  - unfold fs'. rewrite Ef. reflexivity.
+  - lia.
+  - lia.
+  - lia.
+Qed.
+
+(* ---------- every index at once ---------- *)
+Theorem frame_any_index_keeps_inv : forall f idx s s' f0 ft a,
+  Inv s -> MT (groups s) ->
+  frames s = f0 :: ft -> fr_subs f0 <> [] ->
+  lk_int0 (groups s) nm_ANALOG nm_USED = Some a -> a <> 0 ->
+  announced s f ->
+  nlen (frames s) + 1 < 2147483648 -> (forall i, idx = Some i -> i + 1 < 2147483648) ->
+  nlen (fr_pts f0) < 2147483648 -> a < 2147483648 -> a * h_byframe (hdr s) < two64 ->
+  api_frame f_key f_tosize f_div f_is_zero f idx s = ROk tt s' ->
+  Inv s'.
+Proof.
+  intros f idx s s' f0 ft a HI HM Ef Hsub Ha Ha0 An Sz0 Szi Sz2 Sz3 Sz4 H.
+  destruct idx as [i|].
+  - specialize (Szi i eq_refl). destruct (N.ltb_spec i (nlen (frames s))) as [Lt|Ge].
+    + apply (frame_replace_keeps_inv f i s s' f0 ft a); try assumption. lia.
+    + apply (frame_extend_keeps_inv f i s s' f0 ft a); assumption.
+  - apply (frame_append_keeps_inv f s s' f0 ft a); assumption.
+Qed.
 End WithOps.
